@@ -255,9 +255,15 @@ impl G {
                 let u = self.user(d - 1);
                 json!(["is", u, *self.pick(&["User", "Doc", "Group"])])
             }
-            20 => {
+            20 if self.chance(0.5) => {
                 let r = self.rec_inner(d - 1);
                 has(r, "inner")
+            }
+            20 => {
+                // whole records compared (every attribute of the record type matters, optional ones included)
+                let a = self.rec_inner(d - 1);
+                let b = self.rec_inner(d - 1);
+                if self.chance(0.6) { bin("eq", a, b) } else { bin("contains", json!(["set", [b]]), a) }
             }
             21 => {
                 let u = self.user(d - 1);
